@@ -27,10 +27,13 @@ fn xyz(p: &SpacePoint) -> [f64; 3] {
 }
 
 /// points of one helix leaving (0, 0, z0) in direction `dir`, curvature radius `rad` (signed), slope dz/ds
-fn track(rng: &mut Rng, z0: f64, dir: f64, rad: f64, dzds: f64, step: f64, jitter: f64) -> Vec<SpacePoint> {
+fn track(rng: &mut Rng, z0: f64, dir: f64, rad: f64, dzds: f64, step: f64, jitter: f64) -> Vec<SpacePoint> { track_part(rng, z0, dir, rad, dzds, step, jitter, 0.10, 0.21) }
+
+/// the part of such a helix between path lengths s0 and s1 (a short part gives a stub: a legitimate cluster whose track is short)
+fn track_part(rng: &mut Rng, z0: f64, dir: f64, rad: f64, dzds: f64, step: f64, jitter: f64, s0: f64, s1: f64) -> Vec<SpacePoint> {
     let mut v = Vec::new();
-    let mut s = 0.10;
-    while s < 0.21 {
+    let mut s = s0;
+    while s < s1 {
         let a = s / rad;
         let (xl, yl) = (rad * a.sin(), rad * (1.0 - a.cos()));
         let (x, y) = (xl * dir.cos() - yl * dir.sin(), xl * dir.sin() + yl * dir.cos());
@@ -190,7 +193,7 @@ pub fn c15_vertex(tier: &str, seed: u64) -> Value {
     let target = "reconstruction::find_vertices on tracks fitted (Track::try_from) to clusters of synthetic helices, through the public API";
     let big = tier == "thorough";
     let events = if big { 150 } else { 40 };
-    let bound = format!("{events} synthetic events (seed {seed}) of 1-5 helices from a common vertex plus displaced ones; every track list also with its first track repeated and reversed; lists of 0..=8 tracks");
+    let bound = format!("{events} synthetic events (seed {seed}): 1-5 helices from a common vertex plus displaced ones, 2-4 helices each alone at its own z, both also with 1-2 short stubs (clusters of >= 13 points over 2.4 cm); every track list also with its first track repeated, reversed, and cut to one track; lists of 0..=8 tracks");
     let mut rng = Rng(0xD1B54A32D192ED03 ^ (seed.wrapping_mul(0x9E3779B97F4A7C15) | 1));
     let mut cases = 0u64;
     let fail = |e: String, cases: u64| json!({"status": "failed", "target": target, "bound": bound, "check": name, "cases": cases, "distinct": cases, "reason": e,
@@ -198,16 +201,28 @@ pub fn c15_vertex(tier: &str, seed: u64) -> Value {
     if let Err(e) = check_vertexing("no tracks", &[]) { return fail(e, 1); }
     let (mut with_vertex, mut tracks_total) = (0u64, 0u64);
     for n in 0..events {
-        let nt = 1 + rng.below(5) as usize;
+        // kinds of event: 0 common vertex (last tracks displaced), 1 every track alone at its own z (no two within 3.4 cm),
+        // 2 common vertex plus short stubs, 3 isolated tracks plus a stub
+        let kind = n % 4;
+        let nt = if kind == 1 || kind == 3 { 2 + rng.below(3) as usize } else { 1 + rng.below(5) as usize };
         let z0 = rng.range(-0.6, 0.6);
         let mut tracks: Vec<Track> = Vec::new();
+        let mut clouds: Vec<Vec<SpacePoint>> = Vec::new();
         for k in 0..nt {
             let rad = rng.range(0.4, 3.0) * if rng.below(2) == 0 { 1.0 } else { -1.0 };
-            // the last track of larger events starts somewhere else along the axis
-            let z = if k >= 3 { z0 + rng.range(0.1, 0.3) } else { z0 };
-            let (dir, slope) = (rng.range(-3.14, 3.14), rng.range(-0.6, 0.6));
-            let pts = track(&mut rng, z, dir, rad, slope, 0.004, 0.0003);
-            let clusters = match check_clustering(&format!("event {n} track {k}"), &pts) { Ok(c) => c, Err(e) => return fail(e, cases) };
+            let z = if kind == 1 || kind == 3 { -0.7 + 0.35 * k as f64 + rng.range(0.0, 0.1) }
+                    else if k >= 3 { z0 + rng.range(0.1, 0.3) } else { z0 };   // the last tracks of larger events start elsewhere
+            let (dir, slope) = (rng.range(-3.14, 3.14), if kind == 1 || kind == 3 { rng.range(-0.05, 0.05) } else { rng.range(-0.6, 0.6) });
+            clouds.push(track(&mut rng, z, dir, rad, slope, 0.004, 0.0003));
+        }
+        if kind >= 2 {
+            for _ in 0..(1 + rng.below(2)) {
+                let (dir, s0, dz) = (rng.range(-3.14, 3.14), rng.range(0.115, 0.15), rng.range(-0.02, 0.02));
+                clouds.push(track_part(&mut rng, z0 + dz, dir, 0.2, 0.0, 0.0018, 0.0, s0, s0 + 0.0245));
+            }
+        }
+        for (k, pts) in clouds.iter().enumerate() {
+            let clusters = match check_clustering(&format!("event {n} track {k}"), pts) { Ok(c) => c, Err(e) => return fail(e, cases) };
             for c in clusters {
                 if let Ok(Ok(t)) = guarded(move || Track::try_from(c)) { tracks.push(t); }
             }
